@@ -3,13 +3,13 @@
 # confirms in a scratch worktree: demo passes without the patch, fails with it, test suite passes with it; writes meta.json
 WT=$1; SD=$2; PID=$3; shift 3
 cd $WT || exit 2
-git checkout -q -- . ; 
+git checkout -q -- . ; git checkout -q --detach main 2>/dev/null
 PYTHONPATH=$WT /venv/bin/python $SD/demo.py >/dev/null 2>&1; D0=$?
 git apply $SD/patch.diff || exit 2
 PYTHONPATH=$WT /venv/bin/python $SD/demo.py >/dev/null 2>&1; D1=$?
 T=$(PYTHONPATH=$WT /venv/bin/python -m pytest -q -p no:cacheprovider --timeout=900 2>&1 | tail -1)
 git checkout -q -- .
-DET=$(grep -c "VIOLATION property=$PID" /tmp/seedtest_$(basename $SD).log 2>/dev/null)
+DET=$(grep -o "VIOLATION property=C[0-9]*" /tmp/seedtest_$(basename $SD).log 2>/dev/null | sort -u | tr '\n' ' ')
 python3 - "$SD" "$PID" "$D0" "$D1" "$T" "$DET" "$*" <<'PY'
 import json,sys,os
 sd,pid,d0,d1,t,det,needs=sys.argv[1:8]
@@ -17,6 +17,6 @@ notes=open(os.path.join(sd,'notes.txt')).read() if os.path.exists(os.path.join(s
 json.dump({"property":pid,"breaks":notes.strip(),"needs_to_manifest":needs,
  "confirmed":{"demo_exit_unpatched":int(d0),"demo_exit_patched":int(d1),"test_suite_with_patch":t.strip()},
  "ran":["git apply patch.diff in a scratch worktree; demo.py; full pytest","/verif/harness/seedtest.sh: patch applied to /repo, ./check %s --tier quick, reverted"%pid],
- "detected_by_quick_check": int(det)>0},open(os.path.join(sd,'meta.json'),'w'),indent=1)
+ "detected_by_quick_check": bool(det.strip()), "detected_as": det.strip()},open(os.path.join(sd,'meta.json'),'w'),indent=1)
 print(sd,"demo",d0,d1,"|",t.strip(),"| detected",det)
 PY
